@@ -105,6 +105,20 @@ func openQ4(path string, hdr *headerV0) (*q4, error) {
 		return nil, err
 	}
 
+	// Q4 file that is still being written or was left partially written by a crashed write must
+	// not be served: reads past its end would be mistaken for omitted tail padding.
+	info, err := f.Stat()
+	if err == nil {
+		odsLn := int64(hdr.SquareSize() / 2)
+		if expected := int64(hdr.ShareSize()) * odsLn * odsLn; info.Size() != expected {
+			err = fmt.Errorf("file size mismatch: expected %d, got %d", expected, info.Size())
+		}
+	}
+	if err != nil {
+		_ = f.Close()
+		return nil, fmt.Errorf("validating Q4 file: %w", err)
+	}
+
 	return &q4{
 		hdr:  hdr,
 		file: f,
